@@ -81,9 +81,9 @@ JudgeRun(e) ==
        IF r.t \in {"rej", "trailing", "nonum"} THEN "ok"
        ELSE IF e.kind = "syntax" /\ rc.t \in {"rej", "trailing", "nonum"} THEN "ok"
        ELSE IF r.t = "unspec" /\ e.kind = "syntax" /\ e.prefixSyntax THEN "ok"
-       \* where the documentation leaves the reading of the prefix open, the implementation's own answer decides:
-       \* every continuation of the delivered prefix gives the very result of this run (logged as determined)
-       ELSE IF r.t = "unspec" /\ e.determined THEN "ok"
+       \* second witness, independent of the reference: every continuation of the delivered prefix gives the very result
+       \* of this run (logged as determined) - a failure taken for the end of input would not survive a continuation
+       ELSE IF e.determined THEN "ok"
        ELSE IF e.kind = "eof" THEN "read failure treated as end of input"
        ELSE "read failure not reported as an I/O error"
   ELSE "read failure not reported as an I/O error"
